@@ -18,29 +18,9 @@ set_option linter.unreachableTactic false
 set_option linter.style.haveILetI false
 set_option linter.unusedVariables false
 
-/-- `j` is listed in the adjacency of polyline vertex `i` -/
-def AEdge (adj : Array (List Nat)) (i j : Nat) : Prop := j ∈ adj.getD i []
-/-- the adjacency structure is symmetric -/
-def ASym (adj : Array (List Nat)) : Prop := ∀ i j, AEdge adj i j → AEdge adj j i
 /-- total number of adjacency entries -/
 def ltot (L : List (List Nat)) : Nat := (L.map List.length).sum
 def atot (adj : Array (List Nat)) : Nat := ltot adj.toList
-
-theorem getD_set (xs : Array (List Nat)) (i j : Nat) (x : List Nat) :
-    (xs.setIfInBounds i x).getD j [] = if j = i ∧ i < xs.size then x else xs.getD j [] := by
-  simp only [Array.getD_eq_getD_getElem?, Array.getElem?_setIfInBounds]
-  by_cases h : i = j
-  · subst h
-    by_cases h2 : i < xs.size
-    · simp [h2]
-    · simp [h2]
-  · have : ¬ j = i := fun e => h e.symm
-    simp [h, this]
-
-theorem aedge_lt (adj : Array (List Nat)) (i j : Nat) (h : AEdge adj i j) : i < adj.size := by
-  by_contra hc
-  simp only [AEdge, Array.getD_eq_getD_getElem?, Array.getElem?_eq_none (not_lt.mp hc)] at h
-  simp at h
 
 /-- the two `retain` calls of one walk step -/
 def eraseEdge (adj : Array (List Nat)) (p c : Nat) : Array (List Nat) :=
@@ -80,7 +60,7 @@ private theorem ltot_set_lt (L : List (List Nat)) : ∀ (i : Nat) (x : List Nat)
       have := ih k x (by simpa using hi) (by simpa using h)
       simp only [List.set_cons_succ, ltot, List.map_cons, List.sum_cons] at this ⊢; omega
 
-private theorem getD_toList (adj : Array (List Nat)) (i : Nat) : adj.toList.getD i [] = adj.getD i [] := by
+private theorem getD_toList {α} (adj : Array α) (i : Nat) (d : α) : adj.toList.getD i d = adj.getD i d := by
   simp [Array.getD_eq_getD_getElem?, List.getD_eq_getElem?_getD]
 
 theorem atot_erase_lt (adj : Array (List Nat)) (p c : Nat) (h : AEdge adj p c) : atot (eraseEdge adj p c) < atot adj := by
@@ -258,5 +238,110 @@ theorem orient_spec (A : Array (List Nat)) (hs : ASym A) :
   intro s hs'
   have e1 : AEdge A s.1 s.2 := (hcov s.1 s.2).mpr (Or.inl hs')
   exact ⟨aedge_lt A _ _ e1, aedge_lt A _ _ (hs _ _ e1)⟩
+
+/-! ## the whole routine: which segments the polyline consists of -/
+
+variable {K : Type} [Field K] [LinearOrder K] [IsStrictOrderedRing K] (sq : K → K)
+
+/-- loop invariant of step 2 about the *content* of the adjacency structure after the triangles `done`: every adjacency edge joins
+two plane points of one processed triangle; every crossed edge of every processed triangle has its crossing point as the first end of
+an adjacency edge that joins two plane points of that triangle -/
+def ChordInv {K : Type} [Num K] (n : V3 K) (bias eps : K) (V0 : Array (V3 K)) (st : Section.State K) (done : List Tri) : Prop :=
+  (∀ i j, AEdge st.adj i j → ∃ t ∈ done, PlanePt n bias eps V0 t (st.verts.getD i V3.zero) ∧ PlanePt n bias eps V0 t (st.verts.getD j V3.zero)) ∧
+  (∀ t ∈ done, ∀ k, k < 3 → CrossedEdge n bias eps V0 t k → ∃ i j, AEdge st.adj i j ∧
+      st.verts.getD i V3.zero = xpt n bias V0 (t.get k) (t.get ((k + 1) % 3)) ∧
+      PlanePt n bias eps V0 t (st.verts.getD i V3.zero) ∧ PlanePt n bias eps V0 t (st.verts.getD j V3.zero))
+
+private theorem chord_step {K : Type} [Num K] (n : V3 K) (bias eps : K) (V0 : Array (V3 K)) (s s' : Section.State K) (t : Tri)
+    (done : List Tri) (hI : SInv n bias eps V0 s) (hI' : SInv n bias eps V0 s') (hQ : ChordInv n bias eps V0 s done)
+    (hR : StepRel n bias eps V0 s s' t) : ChordInv n bias eps V0 s' (done ++ [t]) := by
+  obtain ⟨kp, sz, alt⟩ := hR
+  have old : ∀ i j, AEdge s.adj i j → s'.verts.getD i V3.zero = s.verts.getD i V3.zero ∧ s'.verts.getD j V3.zero = s.verts.getD j V3.zero := by
+    intro i j h
+    have hi := aedge_lt _ i j h
+    rw [hI.size] at hi
+    exact ⟨kp i hi, kp j (hI.entries i j h)⟩
+  rcases alt with ⟨hadj, hnc⟩ | ⟨o1, o2, E, p1, p2, hx⟩
+  · constructor
+    · intro i j h
+      rw [hadj] at h
+      obtain ⟨t0, ht0, a, b⟩ := hQ.1 i j h
+      obtain ⟨e1, e2⟩ := old i j h
+      exact ⟨t0, by simp [ht0], by rw [e1]; exact a, by rw [e2]; exact b⟩
+    · intro t0 ht0 k hk hcr
+      rcases List.mem_append.mp ht0 with h0 | h0
+      · obtain ⟨i, j, e, x, a, b⟩ := hQ.2 t0 h0 k hk hcr
+        obtain ⟨e1, e2⟩ := old i j e
+        exact ⟨i, j, by rw [hadj]; exact e, by rw [e1]; exact x, by rw [e1]; exact a, by rw [e2]; exact b⟩
+      · simp only [List.mem_singleton] at h0; subst h0
+        exact absurd hcr (hnc k hk)
+  · constructor
+    · intro i j h
+      rcases (E i j).mp h with h | ⟨rfl, rfl⟩ | ⟨rfl, rfl⟩
+      · obtain ⟨t0, ht0, a, b⟩ := hQ.1 i j h
+        obtain ⟨e1, e2⟩ := old i j h
+        exact ⟨t0, by simp [ht0], by rw [e1]; exact a, by rw [e2]; exact b⟩
+      · exact ⟨t, by simp, p1, p2⟩
+      · exact ⟨t, by simp, p2, p1⟩
+    · intro t0 ht0 k hk hcr
+      rcases List.mem_append.mp ht0 with h0 | h0
+      · obtain ⟨i, j, e, x, a, b⟩ := hQ.2 t0 h0 k hk hcr
+        obtain ⟨e1, e2⟩ := old i j e
+        exact ⟨i, j, (E i j).mpr (Or.inl e), by rw [e1]; exact x, by rw [e1]; exact a, by rw [e2]; exact b⟩
+      · simp only [List.mem_singleton] at h0; subst h0
+        rcases hx k hk hcr with h | h
+        · exact ⟨o1, o2, (E _ _).mpr (Or.inr (Or.inl ⟨rfl, rfl⟩)), h, p1, p2⟩
+        · exact ⟨o2, o1, (E _ _).mpr (Or.inr (Or.inr ⟨rfl, rfl⟩)), h, p2, p1⟩
+
+/-- **C17 (plane section, the polyline is exactly the union of the triangles' chords)**: when `intersection_with_local_plane`
+returns `Intersect(polyline)` (vertices `vs`, segments `segs`), for every mesh with valid indices, every plane and `eps ≥ 0`:
+(1) every segment index is a valid vertex index; (2) no segment occurs twice, neither in the same nor in the opposite direction;
+(3) every segment joins two *plane points of one and the same triangle* of the mesh (`PlanePt`: a vertex of the triangle within `eps`
+of the plane, or the exact crossing point of one of its edges whose end points are beyond `eps` on opposite sides) — the polyline lies
+on the mesh, segment by segment, not only vertex by vertex; (4) conversely, for every triangle and every edge of it that the plane
+crosses, the crossing point is an end point of a polyline segment lying in that triangle — no crossed triangle is skipped by the
+triangle loop and no segment is lost (or duplicated) by the orientation walk. -/
+theorem section_polyline_spec (verts : List (V3 K)) (tris : List Tri) (n : V3 K) (bias eps : K) (he : 0 ≤ eps)
+    (vs : List (V3 K)) (segs : List (Nat × Nat))
+    (h : letI := fieldNum K sq; Section.localSection verts tris n bias eps = some (.intersect vs segs)) :
+    letI := fieldNum K sq
+    (∀ s ∈ segs, s.1 < vs.length ∧ s.2 < vs.length) ∧ segs.Pairwise SegNe ∧
+    (∀ s ∈ segs, ∃ t ∈ tris, PlanePt n bias eps verts.toArray t (vs.getD s.1 V3.zero) ∧
+        PlanePt n bias eps verts.toArray t (vs.getD s.2 V3.zero)) ∧
+    (∀ t ∈ tris, ∀ k, k < 3 → CrossedEdge n bias eps verts.toArray t k → ∃ s ∈ segs,
+        PlanePt n bias eps verts.toArray t (vs.getD s.1 V3.zero) ∧ PlanePt n bias eps verts.toArray t (vs.getD s.2 V3.zero) ∧
+        (vs.getD s.1 V3.zero = xpt n bias verts.toArray (t.get k) (t.get ((k + 1) % 3)) ∨
+         vs.getD s.2 V3.zero = xpt n bias verts.toArray (t.get k) (t.get ((k + 1) % 3)))) := by
+  letI : Num K := fieldNum K sq
+  simp only [Section.localSection] at h
+  by_cases hv : validMesh verts.length tris = true
+  · simp only [hv, Bool.not_true, Bool.false_eq_true, if_false] at h
+    obtain ⟨st, e, hI, hQ⟩ := stepLoop_ok sq n bias eps he verts.toArray _ tris (colours_ok sq verts tris n bias eps hv)
+      ⟨#[], [], [], #[]⟩ (ChordInv n bias eps verts.toArray) (sinv_init sq n bias eps _)
+      ⟨fun i j h => by simp [AEdge] at h, fun t ht => by simp at ht⟩
+      (fun s s' t done a b c d => chord_step n bias eps verts.toArray s s' t done a b c d)
+    cases hm : meshVerdict verts n bias eps with
+    | negative => rw [hm] at h; simp at h
+    | positive => rw [hm] at h; simp at h
+    | pair _ _ =>
+      rw [hm] at h
+      simp only [e, Option.some.injEq, Section.Result.intersect.injEq] at h
+      obtain ⟨rfl, rfl⟩ := h
+      obtain ⟨cov, nd, rng⟩ := orient_spec st.adj hI.sym
+      have gd : ∀ i, st.verts.toList.getD i V3.zero = st.verts.getD i V3.zero := fun i => getD_toList _ _ _
+      refine ⟨?_, nd, ?_, ?_⟩
+      · intro s hs
+        have := rng s hs
+        rw [hI.size] at this
+        simpa using this
+      · intro s hs
+        obtain ⟨t, ht, a, b⟩ := hQ.1 s.1 s.2 ((cov s.1 s.2).mpr (Or.inl hs))
+        exact ⟨t, ht, by rw [gd]; exact a, by rw [gd]; exact b⟩
+      · intro t ht k hk hcr
+        obtain ⟨i, j, e', x, a, b⟩ := hQ.2 t ht k hk hcr
+        rcases (cov i j).mp e' with hs | hs
+        · exact ⟨(i, j), hs, by rw [gd]; exact a, by rw [gd]; exact b, Or.inl (by rw [gd]; exact x)⟩
+        · exact ⟨(j, i), hs, by rw [gd]; exact b, by rw [gd]; exact a, Or.inr (by rw [gd]; exact x)⟩
+  · simp [hv] at h
 
 end C17
